@@ -100,7 +100,11 @@ CLAIMS = {
              "(Terminal, Miniscript, Tr, policy Ord) the coverage clause is decided: each payload field (keys, hashes, "
              "every bit of a lock time, threshold k, arity n) of every variant and every pair of variants is "
              "distinguished by ==, cmp (antisymmetric, Equal only on identical values) and hash, and clone rebuilds "
-             "the same node; decided by evaluating the impl bodies on one-level model values with opaque payloads.",
+             "the same node; decided by evaluating the impl bodies on one-level model values with opaque payloads. On "
+             "whole descriptors (~75 canonical texts of every output type incl. near-twins differing in one key, "
+             "threshold, arity, key order, lock, tree shape or internal key; parsed by evaluating the parser): == holds "
+             "exactly for identical texts, cmp is Equal exactly then, antisymmetric and a linear order on the family, "
+             "clones are equal, and the streams fed to a Hasher coincide exactly for equal descriptors (~5600 pairs).",
         note="Trusted: model of the generic tree iterators in iter/tree.rs; key/hash types' own Eq/Ord/Hash; rustc THIR. "
              "Deep trees follow from per-node coverage + arity via the generic pre-order traversal (not re-proved).",
         tech=STATIC + "derive census + payload-coverage decision table extracted from impl bodies (THIR evaluation on model values)",
@@ -126,7 +130,11 @@ CLAIMS["C20"] = dict(
          "(Bare, Pkh, Wpkh, Wsh, Sh x 3, Tr without / with a tree) succeeds exactly when every mapping, every inner "
          "translation and the checking constructor succeed, keeps all leaves in order, and otherwise returns that very "
          "error (outcome table over who fails and how). Decided by evaluating the functions (THIR) on one-level model "
-         "values for all 30 variants.",
+         "values for all 30 variants. On ~75 whole descriptors of every output type (parsed by evaluating the parser): "
+         "for_each_key and iter_pk visit exactly the multiset of key names of the text and for_each_key stops at the first "
+         "refusal; translate_pk with the identity gives an equal descriptor, with a renaming the descriptor of the "
+         "substituted text, twice equals once with the composed mapping, and a mapping failing on any one key fails with "
+         "that error.",
     note="Trusted: model of the generic tree iterators; rustc THIR. Identity / composition laws on deep trees and "
          "derivation-level key behaviour are not re-proved.",
     tech=STATIC + "per-variant structure-preservation table extracted by evaluating THIR on model values; dispatch uniformity over match arms",
@@ -145,7 +153,7 @@ CLAIMS["C16"] = dict(
          "over such keys (parsed, split and printed by evaluation): into_single_descriptors yields exactly the texts with "
          "each <a;b;..> step replaced by its j-th alternative, at_derivation_index(i) the text with /* replaced by /i "
          "(refused for multipath, hardened and out-of-range cases), and keys with different numbers of alternatives "
-         "are refused.",
+         "are refused; Tr::script_pubkey is OP_1 <output key> and Tr::address the tweaked-key address of the same key.",
     note="Trusted: spec/outputs.py; rust-bitcoin script/address constructors and BIP-32 child derivation modelled as term "
          "constructors; rustc THIR. BIP32 arithmetic and taproot output keys (C15) are not decided.",
     tech=STATIC + "symbolic extraction of output-script terms compared with a standards table; sibling agreement; dispatch uniformity",
@@ -250,7 +258,8 @@ CLAIMS["C11"] = dict(
          "numbers, non-ASCII, stray separators and checksums, deep nesting); every short and truncated witness stack "
          "through the interpreter for ~60 scripts; every single-instruction mutation of ~90 scripts and all tiny "
          "scripts through lexer + decoder; PSBT preimage look-ups of wrong length; the finalizer's spent-output "
-         "look-ups over utxo presence x previous-transaction size x vout. Structural: the parser's depth "
+         "look-ups over utxo presence x previous-transaction size x vout; ~4000 near-valid key expressions through the public "
+         "and secret descriptor key parsers. Structural: the parser's depth "
          "pre-check (402 accepted, 403 refused) dominates tree construction; every recursive cycle of the MIR call "
          "graph reachable from an entry point consists of audited functions whose depth that pre-check (or "
          "from_ast's tree-height check) bounds.",
